@@ -126,7 +126,14 @@ pub fn parse_literal(ty: &str, text: &str) -> Result<Option<V>, ()> {
         },
         "text" => Ok(Some(V::Text(text.to_string()))),
         "timestamp" => Ok(parse_timestamp(text).map(V::Ts)),
-        "interval" => Ok(parse_interval(text).map(V::Iv)),
+        "interval" => {
+            // how large an interval may be is not documented: huge parts are gray (must not crash: C09)
+            let parts: Vec<&str> = text.split(':').collect();
+            if parts.len() == 3 && parts.iter().all(|p| p.parse::<i64>().is_ok()) && parse_interval(text).is_none() {
+                return Err(());
+            }
+            Ok(parse_interval(text).map(V::Iv))
+        }
         _ => Ok(None),
     }
 }
